@@ -83,18 +83,18 @@ def run_mpf2float(rep, tier):
                     del calls[:]
                     # input tuple (before normalisation): any positive mantissa, any exponent
                     e.assume(man0 > 0)
-                    e.assume(z3.And(exp0 > -3000, exp0 < 3000))
-                    e.assume(bc0 == SymInt(man0).bit_length().e)
+                    e.assume(z3.And(exp0 > -3000, exp0 < 3000, bc0 > 0, bc0 < 4000))
                     # contract of _normalize (consequences of man*2^exp = RNE_p(V))
                     e.assume(z3.And(man > 0, man < (1 << p), z3.Extract(0, 0, man) == 1))
-                    e.assume(bc == SymInt(man).bit_length().e)
+                    e.assume(z3.Or([z3.And(bc == k, man >= (1 << (k - 1)), man < (1 << k)) for k in range(1, p + 1)]))
+                    e.assume(z3.And(exp > -4000, exp < 4000))
                     e0, e1 = exp0 + bc0, exp + bc
                     e.assume(z3.Or(e1 == e0, z3.And(e1 == e0 + 1, man == 1)))
                     x = FakeMpf(FakeCtx(53), (sign, SymInt(man0), SymInt(exp0), SymInt(bc0)))
                     return f(SymDType(t), x, flush_subnormals=flush)
 
                 try:
-                    paths = explore(run, int_width=W)
+                    paths = explore(run, int_width=W, max_paths=200)
                 except symrun.Unsupported as u:
                     rep.add(core.decided("C15/utils.mpf2float/%s/sign=%d/flush=%s/engine" % (t.__name__, sign, flush), PROP, None, functions=fn, text="outside the subset: %s" % u))
                     continue
@@ -120,15 +120,12 @@ def run_mpf2float(rep, tier):
                     else:
                         rep.add(core.decided(base + "/dtype", PROP, False, functions=fn, text="returned %r" % type(r)))
                         continue
-                    # spec value V' = man * 2^exp, exactly, in a format with p bits and a 15-bit exponent
-                    wide = z3.FPSort(15, p)
-                    mw = z3.fpSignedToFP(z3.RNE(), man, wide)
-                    bias = (1 << 14) - 1
-                    pw = z3.fpBVToFP(z3.Concat(z3.BitVecVal(0, 1), z3.Extract(14, 0, exp + bias), z3.BitVecVal(0, p - 1)), wide)
-                    Vw = z3.fpMul(z3.RNE(), mw, pw)
-                    if sign:
-                        Vw = z3.fpNeg(Vw)
+                    # spec for the normal range, written directly from the IEEE encoding: V' = man * 2^exp has bc <= p bits,
+                    # so it is representable: exponent field e1 - 1 + bias, fraction = man aligned to p bits without its leading 1
                     e1 = exp + bc  # |V'| in [2^(e1-1), 2^e1)
+                    bias = emax
+                    aligned = man << (z3.BitVecVal(p, W) - bc)
+                    spec_bits = z3.Concat(z3.BitVecVal(sign, 1), z3.Extract(eb - 1, 0, e1 - 1 + bias), z3.Extract(p - 2, 0, aligned))
                     normal = z3.And(e1 - 1 >= emin, e1 <= emax + 1)
                     over = e1 > emax + 1
                     tiny = e1 <= emin - p  # |V'| < 2^(emin-p): below half the smallest subnormal
@@ -136,7 +133,7 @@ def run_mpf2float(rep, tier):
                     neg = z3.BoolVal(bool(sign))
                     signed_zero = z3.And(z3.fpIsZero(re_), z3.fpIsNegative(re_) == neg)
                     goal = z3.And(
-                        z3.Implies(z3.And(normal, z3.Not(z3.And(z3.BoolVal(flush), subn))), z3.fpToIEEEBV(re_) == z3.fpToIEEEBV(z3.fpFPToFP(z3.RNE(), Vw, S))),
+                        z3.Implies(z3.And(normal, z3.Not(z3.And(z3.BoolVal(flush), subn))), z3.fpToIEEEBV(re_) == spec_bits),
                         z3.Implies(over, z3.And(z3.fpIsInf(re_), z3.fpIsNegative(re_) == neg)),
                         z3.Implies(tiny, signed_zero),
                         z3.Implies(z3.And(z3.BoolVal(flush), subn), signed_zero),
@@ -150,7 +147,7 @@ def run_mpf2float(rep, tier):
                 # covers: each regime is reachable
                 for name, cond in (("normal", lambda e1: z3.And(e1 - 1 >= emin, e1 <= emax + 1)), ("overflow", lambda e1: e1 > emax + 1), ("tiny", lambda e1: e1 <= emin - p)):
                     s = z3.Solver()
-                    s.add(man > 0, man < (1 << p), z3.Extract(0, 0, man) == 1, bc == SymInt(man).bit_length().e if False else z3.BoolVal(True), cond(exp + bc), exp > -3000, exp < 3000, bc > 0, bc <= p)
+                    s.add(man > 0, man < (1 << p), z3.Extract(0, 0, man) == 1, cond(exp + bc), exp > -3000, exp < 3000, bc > 0, bc <= p)
                     rep.add(core.smt(base0 + "/cover/" + name, PROP, s, functions=fn, text="cover: regime reachable", expect="sat", kind="cover", budget_s=20))
 
 
@@ -213,52 +210,61 @@ def native_replay(o):
     if meta.get("bad"):
         return dict(replayed=True, witness_class="extra precision %s" % meta["bad"][0], bad=meta["bad"])
     m = o.model or {}
-    if "t" not in meta or "man0" not in m:
+    if "t" not in meta or "man" not in m:
         return dict(replayed=False, witness_class=None)
     t = getattr(numpy, meta["t"])
     eb, p = FMT[t]
-    man0 = m["man0"]["value"]
-    exp0 = m["exp0"]["value"]
-    if exp0 >= 1 << (W - 1):
-        exp0 -= 1 << W
+
+    def sval(name):
+        v = m[name]["value"]
+        return v - (1 << W) if v >= 1 << (W - 1) else v
+
     from fractions import Fraction
 
-    ctx = mpmath.mp.clone()
-    ctx.prec = max(p + 10, man0.bit_length() + 2)
-    x = ctx.make_mpf(mpmath.libmp.from_man_exp(man0 * (-1 if meta["sign"] else 1), exp0))
-    got = U.mpf2float(t, x, flush_subnormals=meta["flush"])
-    V = Fraction(man0) * Fraction(2) ** exp0 * (-1 if meta["sign"] else 1)
-    # exact reference: nearest float (ties to even) via integer arithmetic
-    fi = numpy.finfo(t)
     emax = (1 << (eb - 1)) - 1
     emin = 1 - emax
-    a = abs(V)
-    info = dict(value=str(V)[:80], got=repr(got), witness_class="mpf2float %s flush=%s" % (meta["t"], meta["flush"]))
-    if a == 0:
-        return dict(info, replayed=False)
-    e = a.numerator.bit_length() - a.denominator.bit_length()
-    if Fraction(2) ** e > a:
-        e -= 1
-    q = Fraction(2) ** (max(e, emin) - (p - 1))
-    n = a / q
-    k = n.numerator // n.denominator
-    rem = n - k
-    if rem > Fraction(1, 2) or (rem == Fraction(1, 2) and k % 2 == 1):
-        k += 1
-    ref = k * q
-    if ref >= Fraction(2) ** (emax + 1):
-        want = t(numpy.inf)
-    else:
-        want = t(float(ref)) if t is not numpy.float64 else numpy.float64(float(ref))
-    want = -want if V < 0 else want
-    normal = ref >= Fraction(2) ** emin
-    if meta["flush"] and not normal:
-        want = t(-0.0) if V < 0 else t(0.0)
-    info["want"] = repr(want)
-    bad = False
-    if normal or numpy.isinf(want) or meta["flush"] or a < Fraction(2) ** (emin - p):
-        bad = not (got == want and numpy.signbit(got) == numpy.signbit(want))
-    info["replayed"] = bool(bad)
+    cands = []
+    if "man0" in m:
+        cands.append((m["man0"]["value"], sval("exp0")))
+    man, exp = m["man"]["value"], sval("exp")
+    # values that the p-bit rounding maps to man * 2^exp: itself, and neighbours a little below / above
+    cands += [(man, exp), (man * 256 - 1, exp - 8), (man * 256 + 1, exp - 8), (man * 256 - 127, exp - 8), ((man << (p + 4)) - 1, exp - (p + 4)), ((man << (p + 4)) + 1, exp - (p + 4))]
+    info = dict(witness_class="mpf2float %s flush=%s" % (meta["t"], meta["flush"]), replayed=False, tried=[])
+    for man0, exp0 in cands:
+        ctx = mpmath.mp.clone()
+        ctx.prec = max(p + 10, man0.bit_length() + 2)
+        x = ctx.make_mpf(mpmath.libmp.from_man_exp(man0 * (-1 if meta["sign"] else 1), exp0))
+        try:
+            got = U.mpf2float(t, x, flush_subnormals=meta["flush"])
+        except Exception as ex:
+            info.update(replayed=True, raised=repr(ex), man0=man0, exp0=exp0)
+            return info
+        V = Fraction(man0) * Fraction(2) ** exp0 * (-1 if meta["sign"] else 1)
+        a = abs(V)
+        e = a.numerator.bit_length() - a.denominator.bit_length()
+        if Fraction(2) ** e > a:
+            e -= 1
+        q = Fraction(2) ** (max(e, emin) - (p - 1))
+        n = a / q
+        k = n.numerator // n.denominator
+        rem = n - k
+        if rem > Fraction(1, 2) or (rem == Fraction(1, 2) and k % 2 == 1):
+            k += 1
+        ref = k * q
+        if ref >= Fraction(2) ** (emax + 1):
+            want = t(numpy.inf)
+        else:
+            want = t(float(ref))
+        want = -want if V < 0 else want
+        normal = ref >= Fraction(2) ** emin
+        if meta["flush"] and not normal:
+            want = t(-0.0) if V < 0 else t(0.0)
+        decided_case = normal or bool(numpy.isinf(want)) or meta["flush"] or a < Fraction(2) ** (emin - p)
+        bad = decided_case and not (got == want and numpy.signbit(got) == numpy.signbit(want))
+        info["tried"].append(dict(man0=str(man0)[:40], exp0=exp0, got=repr(got), want=repr(want)))
+        if bad:
+            info.update(replayed=True, man0=str(man0), exp0=exp0, got=repr(got), want=repr(want))
+            return info
     return info
 
 
